@@ -165,7 +165,13 @@ theorem table2Safe_signals : TableSignals table2Safe := by
 /-- non-vacuity: closures exist (`RPOPLPUSH a b`, `HINCRBYFLOAT k f 3`, `SINTERSTORE d a b`) -/
 example : ∃ b, Handler2.table2 "RPOPLPUSH" [[97], [98]] = some (.exec b) := ⟨_, rfl⟩
 example : ∃ b, Handler2.table2 "SINTERSTORE" [[100], [97], [98]] = some (.exec b) := ⟨_, rfl⟩
-example : ∃ b, Handler2.table2 "HINCRBYFLOAT" [[107], [102], [51]] = some (.exec b) := ⟨_, rfl⟩
+example : ∃ b, Handler2.table2 "HINCRBYFLOAT" [[107], [102], [51]] = some (.exec b) := by
+  -- the increment text goes through the decimal parser (Model/FloatDec.lean): evaluated by the kernel
+  have h : (match Handler2.table2 "HINCRBYFLOAT" [[107], [102], [51]] with | some (.exec _) => true | _ => false) = true := by
+    decide +kernel
+  split at h
+  · next b heq => exact ⟨b, heq⟩
+  · cases h
 
 /-
   NO FINDING in this table. The cases checked on purpose:
